@@ -239,3 +239,35 @@ def check(prog, run):
                                     run.report(r, "%s:%s:resolver-raises(%s:%s)" % (INTRO, name, cand.qualname, ",".join(lib)), "src/py_gql/schema/introspection.py:%d" % c.lineno,
                                                "the %s resolver calls %s, which raises %s (not a ResolverError): e.g. `{ __type(name: \"Nope\") { name } }` "
                                                "aborts the whole query instead of returning null" % (name, cand.qualname, lib))
+
+    # ---- T6 introspection reads the live schema (no memoisation across calls)
+    r = run.rule("T6", "nothing in schema/introspection.py remembers an answer across calls: no function carries a caching decorator "
+                       "(functools.lru_cache / cache / cached_property / any *cache* decorator), no resolver writes or reads a "
+                       "module-level mutable, and no function has a written mutable default — a Schema is mutable (transforms replace "
+                       "its types in place), so a remembered type list or field list keeps reporting removed or replaced elements", 20)
+    mod_mutables = {n for n, es in m.assigns.items() if any(isinstance(e, (ast.Dict, ast.List, ast.Set)) or
+                    (isinstance(e, ast.Call) and isinstance(e.func, ast.Name) and e.func.id in ("dict", "list", "set", "OrderedDict", "defaultdict", "WeakKeyDictionary"))
+                    for e in es)}
+    funcs = [f for f in prog.all_funcs() if f.module is m]
+    lambdas = [n for es in m.assigns.values() for e in es for n in ast.walk(e) if isinstance(n, ast.Lambda)]
+    for f in funcs:
+        r.instance("function %s" % f.qualname)
+        for d in f.node.decorator_list:
+            txt = ast.unparse(d)
+            if "cache" in txt.lower() or "memo" in txt.lower():
+                run.report(r, "%s:%s:memoised(%s)" % (INTRO, f.qualname, txt.split("(")[0]), f.where(),
+                           "%s is decorated with @%s: its answer for a schema object is remembered although the schema's types can be "
+                           "replaced in place afterwards" % (f.qualname, txt))
+        for n in own_nodes(f.node):
+            if isinstance(n, (ast.Subscript, ast.Attribute)) and isinstance(n.ctx, ast.Store) and isinstance(n.value, ast.Name) and n.value.id in mod_mutables:
+                run.report(r, "%s:%s:module-cache(%s)" % (INTRO, f.qualname, n.value.id), f.where(n), "%s writes the module-level container %s" % (f.qualname, n.value.id))
+            if isinstance(n, ast.Call) and isinstance(n.func, ast.Attribute) and isinstance(n.func.value, ast.Name) and n.func.value.id in mod_mutables \
+                    and n.func.attr in ("setdefault", "update", "append", "add", "__setitem__"):
+                run.report(r, "%s:%s:module-cache(%s)" % (INTRO, f.qualname, n.func.value.id), f.where(n), "%s writes the module-level container %s" % (f.qualname, n.func.value.id))
+    memo_funcs = {f.name for f in funcs if any("cache" in ast.unparse(d).lower() or "memo" in ast.unparse(d).lower() for d in f.node.decorator_list)}
+    for lam in lambdas:
+        r.instance("resolver lambda at line %d" % lam.lineno, nontrivial=False)
+        for n in ast.walk(lam.body):
+            if isinstance(n, ast.Name) and n.id in mod_mutables:
+                run.report(r, "%s:<lambda>:module-state(%s)" % (INTRO, n.id), "src/py_gql/schema/introspection.py:%d" % n.lineno,
+                           "a resolver reads the module-level container %s" % n.id)
